@@ -540,6 +540,11 @@ def check(res, tier, seed):
     if pid in ("C03", "C05", "C12", "C15"):
         from . import locksets
         srecs2, src2, sout2 = C.run_job(binary, wd, "stress", dict(family="bcast-stress", seed=seed, n=(60000 if tier == "quick" else 1500000)), timeout=600)
+        if src2 != 0 and pid in ("C05", "C03", "C15"):
+            monitor_hits += 1
+            line = next((l for l in sout2.splitlines() if l.startswith("panic:") or "fatal error" in l), (sout2.strip().splitlines() or ["?"])[-1])
+            res.violation("bcast-stress-crash", "the process died while the pending-call table was used concurrently under the real scheduler (many pending calls woken by Close while their owners free them): %s" % line[:300],
+                          dict(kind="bcast-stress", output=sout2[-3000:]))
         for sr in srecs2:
             if sr.get("violates") and pid in ("C03", "C15", "C05"):
                 monitor_hits += 1
